@@ -580,7 +580,8 @@ package eventbus
 //@   ensures [C01.option.frame] {C01} bus.shards == old(bus.shards)
 
 //@ func WithUpcastErrorHandler$1
-//@   props C09
+//@   props C09 C17
+//@   ensures [C17.option.sets] bus.upcastRegistry.errorHandler == handler
 //@   requires bus != nil && PersistInv(bus) && bus.upcastRegistry != nil
 //@   ensures [C09.option.preserves] PersistInv(bus)
 //@   ensures [C01.option.frame] {C01} bus.shards == old(bus.shards)
@@ -597,6 +598,7 @@ package eventbus
 
 //@ lockinv upcastRegistry.mu(r) [UpInv.map] {C16,C17} r.upcasters != nil
 //@ lockinv upcastRegistry.mu(r) [UpInv.acyclic] {C16} acyclic(GR(r))
+//@ lockinv upcastRegistry.mu(r) [UpInv.noself] {C16,C17} forall t string, i int :: {r.upcasters[t][i]} 0 <= i && i < len(r.upcasters[t]) ==> r.upcasters[t][i].ToType != t
 
 // The upcaster graph: edge a -> b iff some upcaster registered for a has target b.
 //@ def edgeDef(r, a, b) exists i int :: 0 <= i && i < len(r.upcasters[a]) && r.upcasters[a][i].ToType == b
@@ -638,6 +640,9 @@ package eventbus
 //@   ensures [C16.cs.single] {C16,C02} cnt(lockReg) <= 1 && cnt(unlockReg) == cnt(lockReg) && cnt(cycleCheck) == cnt(lockReg)
 //@   at call:(*upcastRegistry).wouldCreateCycle assert [C16.check.locked] held(&r.mu) == 2
 //@   at unlock:upcastRegistry.mu assert [C16.register.exact] (err != nil) <==> acq(reach(GR(r), toType, fromType))
+//@   at unlock:upcastRegistry.mu assert [C16.register.edge.old] err == nil ==> (forall a string, b string :: {acq(GR(r))[a][b]} acq(GR(r))[a][b] ==> GR(r)[a][b])
+//@   at unlock:upcastRegistry.mu assert [C16.register.edge.new] err == nil ==> GR(r)[fromType][toType]
+//@   at unlock:upcastRegistry.mu assert [C16.register.edge.only] err == nil ==> (forall a string, b string :: {GR(r)[a][b]} GR(r)[a][b] ==> acq(GR(r))[a][b] || (a == fromType && b == toType))
 //@   at unlock:upcastRegistry.mu assert [C16.register.edge] err == nil ==> isAddEdge(acq(GR(r)), GR(r), fromType, toType)
 //@   at unlock:upcastRegistry.mu assert [C16.register.append] err == nil ==>
 //@        len(r.upcasters[fromType]) == len(acq(r.upcasters[fromType])) + 1 &&
@@ -676,13 +681,17 @@ package eventbus
 //@   ensures [C01.option.frame] {C01} bus.shards == old(bus.shards)
 //@   ensures [C16.viaRegister] {C16} cnt(registerCall) == 1
 
+//@ event clearRegCall := call (*upcastRegistry).clear
+//@ event clearTypeCall := call (*upcastRegistry).clearType
 //@ func (*EventBus).ClearUpcasts
 //@   props C16
 //@   requires bus != nil && bus.upcastRegistry != nil
+//@   ensures [C16.clearall.delegates] cnt(clearRegCall) == 1 && lastarg(clearRegCall, 0) == bus.upcastRegistry
 
 //@ func (*EventBus).ClearUpcastsForType
 //@   props C16
 //@   requires bus != nil && bus.upcastRegistry != nil
+//@   ensures [C16.cleartype.delegates] cnt(clearTypeCall) == 1 && lastarg(clearTypeCall, 0) == bus.upcastRegistry && lastarg(clearTypeCall, 1, String) == eventType
 
 // ---------------------------------------------------------------- MemoryStore (C10)
 //@ guarded MemoryStore.events by MemoryStore.mu
@@ -879,9 +888,17 @@ package eventbus
 //@        (chainOK(arrayOf(firstUp, string, r), currentData, currentType) <==> chainOK(arrayOf(firstUp, string, r), data, eventType))
 //@        && cnt(upErrHandler) == 0 && cnt(upcastCall) >= 0
 //@        && (forall j int :: {nth(upcastCall, j, 0)} 0 <= j && j < cnt(upcastCall) ==> !upFails(nth(upcastCall, j, 0), nth(upcastCall, j, 1)))
+//@   loop 1 invariant [C17.apply.firststeps] {C17} (cnt(upcastCall) == 0 ==> currentType == eventType && currentData == data && (forall t string :: {appliedTypes[t]} !appliedTypes[t])) &&
+//@        (cnt(upcastCall) == 1 ==> currentType == upType(firstUp(r, eventType), data) && nth(upcastCall, 0, 0) == firstUp(r, eventType) && nth(upcastCall, 0, 1) == data &&
+//@            (forall t string :: {appliedTypes[t]} appliedTypes[t] ==> t == eventType)) &&
+//@        (cnt(upcastCall) >= 2 ==> firstUp(r, upType(firstUp(r, eventType), data)) != 0)
 //@   loop 1 invariant [C16.apply.freshMark] {C16} !appliedTypes[currentType]
 //@   ensures [C17.apply.ok] {C17} result2 == nil ==> result0 == acq(chainD(arrayOf(firstUp, string, r), data, eventType)) &&
 //@        result1 == acq(chainT(arrayOf(firstUp, string, r), data, eventType)) && acq(chainOK(arrayOf(firstUp, string, r), data, eventType))
+// completeness for the cases without any possibility of a repeated type: no upcaster at all, or one successful step to a type without upcaster
+//@   ensures [C17.apply.none] {C17} acq(arrayOf(firstUp, string, r))[eventType] == 0 ==> result2 == nil && result0 == data && result1 == eventType && cnt(upcastCall) == 0
+//@   ensures [C17.apply.onestep] {C17} firstUp(r, eventType) != 0 && !upFails(firstUp(r, eventType), data) &&
+//@        upType(firstUp(r, eventType), data) != eventType && firstUp(r, upType(firstUp(r, eventType), data)) == 0 ==> result2 == nil
 //@   ensures [C17.apply.fail.original] {C17} result2 != nil ==> result0 == data && result1 == eventType
 //@   ensures [C17.apply.fail.chain] {C17} !acq(chainOK(arrayOf(firstUp, string, r), data, eventType)) ==> result2 != nil
 //@   ensures [C17.apply.fail.handlerOnce] {C17} cnt(upErrHandler) == ite(cnt(upcastCall) > 0 &&
